@@ -167,3 +167,28 @@ package tcp
 //@ func EmptyFlags
 //@   props C03
 //@   ensures ret == ""
+
+// C03 / C06: the flag letters of a record are computed from THIS segment alone: one letter per set flag
+// (s a f r p u e c n), none for a clear flag, and the result is exactly what was written
+//@ func AllFlags
+//@   props C03 C06
+//@   observe (*strings.Builder).WriteRune, (*strings.Builder).String
+//@   exit require syn: call WriteRune(_, 115) when pkt.SYN then true
+//@   exit forbid  syn: call WriteRune(_, 115) when !pkt.SYN
+//@   exit require ack: call WriteRune(_, 97) when pkt.ACK then true
+//@   exit forbid  ack: call WriteRune(_, 97) when !pkt.ACK
+//@   exit require fin: call WriteRune(_, 102) when pkt.FIN then true
+//@   exit forbid  fin: call WriteRune(_, 102) when !pkt.FIN
+//@   exit require rst: call WriteRune(_, 114) when pkt.RST then true
+//@   exit forbid  rst: call WriteRune(_, 114) when !pkt.RST
+//@   exit require psh: call WriteRune(_, 112) when pkt.PSH then true
+//@   exit forbid  psh: call WriteRune(_, 112) when !pkt.PSH
+//@   exit require urg: call WriteRune(_, 117) when pkt.URG then true
+//@   exit forbid  urg: call WriteRune(_, 117) when !pkt.URG
+//@   exit require ece: call WriteRune(_, 101) when pkt.ECE then true
+//@   exit forbid  ece: call WriteRune(_, 101) when !pkt.ECE
+//@   exit require cwr: call WriteRune(_, 99) when pkt.CWR then true
+//@   exit forbid  cwr: call WriteRune(_, 99) when !pkt.CWR
+//@   exit require ns:  call WriteRune(_, 110) when pkt.NS then true
+//@   exit forbid  ns:  call WriteRune(_, 110) when !pkt.NS
+//@   exit require out: call String(_) as (r) when true then ret == r
